@@ -3793,10 +3793,15 @@ class DecVarSub(VarSub):
         self.fixed = False
         # dependencies declared through other slices of the same array
         self.rand_adapt = self.dvars.rand_adapt
+        num_rand = self.dro_model.sup_model.vars[-1].last
         if self.rand_adapt is None:
-            sup_model = self.dro_model.sup_model
-            self.rand_adapt = np.zeros((self.size, sup_model.vars[-1].last),
-                                       dtype=np.int8)
+            self.rand_adapt = np.zeros((self.size, num_rand), dtype=np.int8)
+        elif self.rand_adapt.shape[1] < num_rand:
+            # random variables declared since the last adapt()
+            extra = num_rand - self.rand_adapt.shape[1]
+            self.rand_adapt = np.concatenate(
+                (self.rand_adapt,
+                 np.zeros((self.size, extra), dtype=np.int8)), axis=1)
 
         dec_indices = self.indices
         dec_indices = dec_indices.reshape((dec_indices.size, 1))
